@@ -568,6 +568,10 @@ func judgeProxy(w *proxyWorld, res *Result) {
 		judgeRelay(w, res)
 	case "keys":
 		judgeKeys(w, res)
+	case "certs":
+		judgeCerts(w, res)
+	case "raw":
+		judgeRaw(w, res)
 	}
 	for _, ex := range w.exch {
 		if ex.Complete {
